@@ -473,7 +473,7 @@ Section Nt.
   Qed.
 
   (* ---------- lists without a VaryingSize parameter: every operation ---------- *)
-  (* on such a list erase() with elements behind the erased ones move-assigns them forward
+  (* on such a list erase() with elements behind the erased ones move-constructs them forward
      field by field (FixedErase.v), whatever the value types are; so NO restriction on the
      history is left there *)
   Definition nt_okx (s : svec) (o : sop) : Prop := has_varying L = false \/ nt_ok s o.
